@@ -20,7 +20,7 @@
   * Every `unwrap_opt!`, `unreachable!` and unchecked arithmetic is an explicit `Outcome.panic`
     branch. `u32` arithmetic of the delay code is saturating in the source (kept), except the
     `.sum::<u32>()` of `intermediate_propagation_time_to` (unchecked: goes through `Mode`) and the
-    `i64` negate/add of `write_dc_parameters` (unchecked: goes through `Mode`).
+    `i64` offset of `write_dc_parameters` (`wrapping_sub` since fix <COMMIT>).
   * Logging: the harness builds the crate without the `log`/`defmt` features, where
     `fmt::debug!(..)` expands to `let _ = (&arg, ..)`, i.e. the ARGUMENTS ARE EVALUATED. This makes
     `debug_print_ports` call `subdevice.ports.topology()` (which can panic) — modelled. With the
@@ -389,19 +389,12 @@ def latch (rs : List Report) : List Dev := mkDevsFrom latchOne 0 rs
 /-- `x as i64` for a `u64`. -/
 def toI64 (x : Nat) : Int := if x < 9223372036854775808 then (x : Int) else (x : Int) - 18446744073709551616
 
-/-- `-(subdevice.dc_receive_time as i64) + now_nanos as i64`, returned as the `u64` with the same
-    bit pattern (what `send(maindevice, system_time_offset)` puts on the wire, little endian). -/
-def offsetI64 (m : Mode) (rx now : Nat) : Outcome Err Nat :=
-  let a := toI64 rx
-  let b := toI64 now
-  if a = -9223372036854775808 ∧ m = .checked then .panic "attempt to negate with overflow"
-  else
-    -- wrapping negation of i64::MIN is i64::MIN
-    let na : Int := if a = -9223372036854775808 then a else -a
-    let s := na + b
-    if (s < -9223372036854775808 ∨ 9223372036854775807 < s) ∧ m = .checked then
-      .panic "attempt to add with overflow"
-    else .ok (s % 18446744073709551616).toNat
+/-- `(now_nanos as i64).wrapping_sub(subdevice.dc_receive_time as i64)`, returned as the `u64` with
+    the same bit pattern (what `send(maindevice, system_time_offset)` puts on the wire, little
+    endian). Wrapping by construction since fix <COMMIT> (before: unchecked `-(rx as i64) + now as
+    i64`, which panicked in checked builds); the build mode no longer matters. -/
+def offsetI64 (_m : Mode) (rx now : Nat) : Outcome Err Nat :=
+  .ok ((toI64 now - toI64 rx) % 18446744073709551616).toNat
 
 /-- One register write (FPWR to `addr`), payload little endian. -/
 structure Write where
